@@ -1620,6 +1620,7 @@ func shrink(w *world, c Case, fp string) Case {
 func main() {
 	core.ParseFlags()
 	node.Quiet()
+	node.DropEngineGoroutines() // see mc/node/tasks.go
 
 	if core.Opt.Replay != "" {
 		var c Case
